@@ -23,7 +23,7 @@ impl Group for C11Sim {
          store and its durable view compared with the running node; non-trivial = at least three accepted state-changing requests \
          of at least two different kinds"
     }
-    fn budget(&self, tier: Tier) -> usize { if tier == Tier::Quick { 250 } else { 4000 } }
+    fn budget(&self, tier: Tier) -> usize { if tier == Tier::Quick { 450 } else { 4000 } }
     fn model_line(&self, op: &str) -> Option<String> { node_model_line(op) }
     fn corpus(&self) -> Vec<Vec<String>> {
         let c = |s: &str| s.split('|').map(|x| x.to_string()).collect::<Vec<_>>();
@@ -54,6 +54,7 @@ impl Group for C11Sim {
             c("world backup|vh 0 g 0|failw m sh 0"),
             // the real protocol handler (world h)
             c("world h|HVH 0 g 0|restart|HVH 0 g 1|restart|HRV 0|HVHO 0 g 2|restart|HVH -1 g 2"),
+            c("world h|HVH 0 g 0|HSCP 0 0|restart|HSCP 0 1|HCPR 0 g|restart|HSCP 0 2|HSH 0|restart|HVH 0 g 1"),
             // handler composites
             c("hvh 0 g 0|restart|rv 0|hvho 0 g 1|restart|hvh1o 0 g 2|ks 1000|restart|hvh1 0 g 0"),
             // a stub pruned by the heartbeat after more than six blocks, then created again under the same id
@@ -62,6 +63,8 @@ impl Group for C11Sim {
             c("world redb|al add g|blk+ g|vh 0 g 0|rv 0|forget 0|blk+ g|blkn 3|newch 2|ks 1000|restart|scp 0 0|blk- g"),
             // blocks through the protocol handler's AddBlock arm, with and without a ready channel
             c("HBLK+ g|restart|HBLK+ b|HBLK+ g|blk- g|restart|HBLK+ g"),
+            // channel creation / forgetting / heartbeat through the protocol handler
+            c("HNEW 2|restart|HFORGET 1|restart|HNEW 3|blkn 7|HHB|restart|HNEW 2"),
             // a full channel map
             c("newch 1|newch 2|newch 3|newch 4|restart|newch 4|forget 2|newch 4|restart|newch 5"),
             // closing through either entry point must be durable
@@ -105,9 +108,14 @@ impl Group for C11Sim {
             if rng.chance(4, 5) { pre.push("act".to_string()); }
             for (i, o) in pre.into_iter().enumerate() { ops.insert(i, o); }
         }
-        // blocks arrive through the protocol handler in a third of the cases
+        // blocks and the node-level requests arrive through the protocol handler's arms in a third of the cases
         for i in 0..ops.len() {
-            if ops[i].starts_with("blk+ ") && rng.chance(1, 3) { ops[i] = ops[i].replacen("blk+", "HBLK+", 1); }
+            if rng.chance(1, 3) {
+                if ops[i].starts_with("blk+ ") { ops[i] = ops[i].replacen("blk+", "HBLK+", 1); }
+                else if let Some(r) = ops[i].strip_prefix("newch ") { ops[i] = format!("HNEW {}", r); }
+                else if let Some(r) = ops[i].strip_prefix("forget ") { ops[i] = format!("HFORGET {}", r); }
+                else if ops[i] == "hb" { ops[i] = "HHB".to_string(); }
+            }
         }
         // sometimes the last request runs while the store refuses writes (in `world backup`: either side)
         if rng.chance(1, 4) {
@@ -218,7 +226,7 @@ impl Group for C11Stub {
          durable view of a second node restored from the store (and from the crash point between prepare and commit) is \
          compared with the running node; monitor-only (no model); non-trivial as for the main group"
     }
-    fn budget(&self, tier: Tier) -> usize { if tier == Tier::Quick { 40 } else { 600 } }
+    fn budget(&self, tier: Tier) -> usize { if tier == Tier::Quick { 150 } else { 1000 } }
     fn corpus(&self) -> Vec<Vec<String>> {
         let c = |s: &str| s.split('|').map(|x| x.to_string()).collect::<Vec<_>>();
         vec![
